@@ -6,13 +6,13 @@ package verifsim
 
 import (
 	"context"
-	"sync/atomic"
 	"fmt"
 	"math"
 	"net/http"
 	"sort"
 	"strings"
 	"sync"
+	"sync/atomic"
 	"time"
 
 	"github.com/sirupsen/logrus"
@@ -73,7 +73,7 @@ func exactEvent(e *gostatsd.Event) string {
 
 func (c14) Run(e *Env) {
 	e.ProbeDecl("non-finite-value", "empty-tags", "empty-source", "same-set-name-two-tagsets", "sampled-timer", "event", "retry-after-5xx", "post-built-while-other-backs-off", "damaged-in-flight", "damaged-compressed-then-valid",
-		"damage-decoded-anyway", "lost-response-duplicate", "huge-values")
+		"damage-decoded-anyway", "lost-response-duplicate", "huge-values", "redirected-to-other-node", "very-large-flush")
 	compType := []string{"none", "zlib", "lz4"}[e.Draw(3)]
 	level := e.Draw(10)
 	v := viper.New()
@@ -103,6 +103,28 @@ func (c14) Run(e *Env) {
 		e.Failf("C14/harness", "ingestion: %v", err)
 	}
 	fab.Handle("ingest", upSrv.Router)
+	// run class "endpoint moved": the configured endpoint answers every request with a redirect to the
+	// node that really ingests
+	fab.Handle("ingest2", upSrv.Router)
+	redirecting := e.Chance(1, 6)
+	redirected := func(p *Parked) bool {
+		r := p.Arg.(*HTTPReq)
+		if !redirecting || r.Host != "ingest" {
+			return false
+		}
+		st := []int{307, 308}[e.Draw(2)]
+		fab.Gate.Release(p, HTTPOutcome{Kind: "status", Status: st, Header: http.Header{"Location": {"http://ingest2" + r.Path}}})
+		e.Fault("redirect")
+		e.Probe("redirected-to-other-node")
+		e.Event("redirect %s -> %d ingest2", r.Path, st)
+		e.Settle()
+		return true
+	}
+	// run class "very large flush": one batch whose encoded form exceeds 16 MiB
+	hugeLeft := 0
+	if e.Chance(1, 3000) {
+		hugeLeft = 1
+	}
 	ctx, cancel := context.WithCancel(context.Background())
 	var wg sync.WaitGroup
 	wg.Add(1)
@@ -125,7 +147,8 @@ func (c14) Run(e *Env) {
 	item := 0
 	specials := []float64{0, math.Copysign(0, -1), -1, 1e300, -1e300, math.MaxFloat64, 5e-324, math.Inf(1), math.Inf(-1), math.NaN(), 4.5e15}
 	names := []string{"m.one", "m.two", "m/3 x"}
-	tagsets := [][]string{nil, {}, {"env:prod"}, {"a:1", "b:2"}, {"ünï:cödé", "k"}, {"b:2", "a:1"}}
+	// {"env:prod","s:10.6.0.1"} without a source and {"env:prod"} from source 10.6.0.1 share one tags key
+	tagsets := [][]string{nil, {}, {"env:prod"}, {"a:1", "b:2"}, {"ünï:cödé", "k"}, {"b:2", "a:1"}, {"env:prod", "s:10.6.0.1"}}
 	srcs := []string{"", "10.6.0.1", "host-Ω"}
 
 	genBatch := func() *gostatsd.MetricMap {
@@ -175,6 +198,14 @@ func (c14) Run(e *Env) {
 			}
 			mm.Receive(m)
 		}
+		if hugeLeft > 0 {
+			hugeLeft--
+			e.Probe("very-large-flush")
+			for i := 0; i < 120000; i++ {
+				mm.Receive(&gostatsd.Metric{Name: fmt.Sprintf("huge.series.%06d", i), Type: gostatsd.GAUGE, Value: float64(i), Rate: 1,
+					Tags: gostatsd.Tags{"dc:us-east-1a-production", "env:production-environment"}, Timestamp: gostatsd.Nanotime(item)})
+			}
+		}
 		// a unique marker so that no two posts ever carry the same content
 		item++
 		mm.Receive(&gostatsd.Metric{Name: "marker", Type: gostatsd.COUNTER, Value: float64(item), Rate: 1, Timestamp: gostatsd.Nanotime(item)})
@@ -215,7 +246,11 @@ func (c14) Run(e *Env) {
 		mm := genBatch()
 		expected[exactCanon(mm)]++
 		obs, _ := Snapshot(mm)
-		e.Event("dispatch+flush %s", CanonObs(obs))
+		desc := CanonObs(obs)
+		if len(desc) > 1500 {
+			desc = fmt.Sprintf("%s ... (%d series)", desc[:1500], len(obs))
+		}
+		e.Event("dispatch+flush %s", desc)
 		hfh.DispatchMetricMap(ctx, mm)
 		wg.Add(1)
 		go func() { defer wg.Done(); fc.Flush() }()
@@ -248,6 +283,9 @@ func (c14) Run(e *Env) {
 			post()
 		case 1:
 			p := reqP[e.Choose("req", len(reqP))]
+			if redirected(p) {
+				continue
+			}
 			r := p.Arg.(*HTTPReq)
 			compressed := r.Header.Get("Content-Encoding") == "deflate" || r.Header.Get("Content-Encoding") == "lz4"
 			kind := e.Weighted("link", []int{6, 2, 1, 3, 1})
@@ -381,6 +419,9 @@ func (c14) Run(e *Env) {
 			continue
 		}
 		for _, p := range ps {
+			if redirected(p) {
+				continue
+			}
 			r := p.Arg.(*HTTPReq)
 			fab.Gate.Release(p, HTTPOutcome{Kind: "serve"})
 			e.Settle()
